@@ -745,6 +745,28 @@ theorem load_filter_counterexample :
     (expire K0 sF [7]).pool = [] ∧ (reload K0 (expire K0 sF [7])).pool = [] := by
   decide
 
+/-! the chain's block callback and the node's sync state -/
+
+/-- WHY THE CHAIN'S "BLOCK CONNECTED" CALLBACK MUST REACH THE POOL FOR EVERY BLOCK, WHATEVER THE NODE'S SYNC STATE (a
+    concrete instance, checked by evaluation). The model's `.block` step is `blockMined ∘ connectUtxo`: chain side and pool
+    side of one commit; client/main.go `blockMined` (installed as the chain's BlockMinedCB by client/init.go) is what joins
+    them in the node, and it is called with blocks whose `LastKnownHeight` is anything from 0 to hundreds of blocks above
+    the block (header-first catch-up with a pool loaded from mempool.dmp). `sL` pools txA (id 7, spends the confirmed coin
+    (1,0)) and txL (id 13). When a block holding txA is committed on the chain side ALONE (`connectUtxo`, the callback
+    returning before txpool.BlockMined), txA stays pooled although (1,0) is gone from the confirmed set and txA's own
+    output (7,0) is confirmed: an input that is neither an unspent confirmed output nor an output of a pooled transaction,
+    and a pooled transaction that duplicates the active chain - both excluded by C12. The full step leaves txL alone, with
+    SpentOutputs = {(2,0) ↦ 13}. The harness drives this joint on the real client (go/cmd/c12/realclient.go). -/
+theorem block_hook_skipped_counterexample :
+    sL.pool.map (·.1) = [7, 13] ∧
+    (connectUtxo sL 6 [txA]).pool.map (·.1) = [7, 13] ∧
+    (connectUtxo sL 6 [txA]).utxo.get? (1, 0) = none ∧
+    ((connectUtxo sL 6 [txA]).utxo.get? (7, 0)).isSome = true ∧
+    (step K0 sL (.block 6 [txA] 0)).pool.map (·.1) = [13] ∧
+    (step K0 sL (.block 6 [txA] 0)).spent = [(2000, 13)] ∧
+    (step K0 sL (.block 6 [txA] 0)).panicked = false := by
+  decide
+
 example : (submitNet K0 0 s0 txA false).1 = 0 := by decide
 example : (processTx K0 0 s0 txD {}).1 = R_BAD_INPUT := by decide
 example : (sortedSlowP K0 s2).map (·.1) = [7, 8] := by decide
